@@ -1,1 +1,387 @@
-/- C05: property theorems go here (only property theorems, non-vacuity examples, #print axioms). -/
+import StorageModel.C05.Sim
+import StorageModel.C05.SelfW
+import StorageModel.C05.Self
+/-
+  C05 — Link collections stay symmetric; ref-counted links agree on both sides.
+
+  "For many-to-many link collections, after any committed history of add, remove, set-links and
+  entity deletions, B is in A's link set if and only if A is in B's; set-links leaves exactly the
+  requested set (duplicates and order are irrelevant) and linking to a missing entity fails.  For
+  reference-counted links both sides always hold the same positive count, and the link disappears
+  from both sides when the count reaches zero or either entity is deleted."
+
+  The theorems are about the executable model in StorageModel/C05/Model.lean, which follows
+  boltz/link_collection.go, boltz/link_collection_rc.go, the list-entry / link-count functions of
+  boltz/typed_bucket.go and Create/Update/DeleteById of boltz/store_crud.go branch by branch
+  (paired writes local side first, the literal sorted-merge loop of SetLinks, int32 counts with
+  explicit wrap-around), for every key type with a strict total order — in particular byte
+  strings under Go's string order (`KOrd Bytes`, proved in C05/Order.lean).  The correspondence
+  harness runs that same model (compiled) against the real stores on every check.
+
+  A history is a list of `Db.Update` bodies (`List (List (Op K))`); a body that returns an error
+  is rolled back (`commitTx`).  Histories start from the empty database.
+-/
+set_option linter.unusedSectionVars false
+namespace StorageModel.Properties.C05
+open StorageModel StorageModel.C05
+
+section
+variable {K : Type} [KOrd K] [DecidableEq K]
+
+/-! ## symmetry -/
+
+/-- **After any committed history, B is in A's link set iff A is in B's.**  No hypothesis on the
+    history: any operations (link, ref-count, create/update/delete, with any arguments, failing
+    or not), any number of transactions. -/
+theorem links_symmetric (h : List (List (Op K))) (a b : K) :
+    b ∈ linksOf (runHist ([] : St K) h) (.A, a) ↔ a ∈ linksOf (runHist ([] : St K) h) (.B, b) :=
+  (runHist_lInv lInv_nil h).sym .A a b
+
+/-- consequence: a link never points to an entity that does not exist (no dangling link survives
+    a committed history), and every link bucket is in key order without duplicates -/
+theorem links_point_to_existing (h : List (List (Op K))) (sd : Side) (a b : K)
+    (hm : b ∈ linksOf (runHist ([] : St K) h) (sd, a)) :
+    exists? (runHist ([] : St K) h) (sd.other, b) = true :=
+  exists_of_mem_linksOf (((runHist_lInv lInv_nil h).sym sd a b).mp hm)
+
+theorem link_buckets_sorted (h : List (List (Op K))) (r : Ref K) :
+    SSorted (linksOf (runHist ([] : St K) h) r) :=
+  (runHist_lInv lInv_nil h).sorted r
+
+/-! ## SetLinks -/
+
+/-- **set-links leaves exactly the requested set.**  For every state whose link buckets are
+    symmetric and in key order (every state a history can reach, see `setlinks_exact_reachable`),
+    every entity `id` that exists and EVERY request list `req` — any order, any duplicates, any
+    overlap with the current links — all of whose keys exist on the other side:
+    `SetLinks` succeeds; afterwards the link bucket of `id` is `dedup (sort req)`; on the other side
+    exactly the requested entities list `id`; no other link set of `id`'s store changes. -/
+theorem setlinks_exact {s : St K} (hinv : LInv s) {sd : Side} {id : K} {req : List K}
+    (hid : exists? s (sd, id) = true) (hall : ∀ k ∈ req, exists? s (sd.other, k) = true) :
+    (setLinks s sd id req).2 = none ∧
+    linksOf (setLinks s sd id req).1 (sd, id) = dedupK (sortK req) ∧
+    (∀ b, id ∈ linksOf (setLinks s sd id req).1 (sd.other, b) ↔ b ∈ req) ∧
+    (∀ x, x ≠ id → ∀ y, y ∈ linksOf (setLinks s sd id req).1 (sd, x) ↔ y ∈ linksOf s (sd, x)) := by
+  obtain ⟨h1, h2, h3⟩ := setLinks_ok hinv.sorted hid hall
+  refine ⟨h1, h2, ?_, h3⟩
+  intro b
+  have := setLinks_sym hinv.sym h1 sd id b
+  rw [← this, h2, mem_dedup_sort]
+
+/-- the same, phrased on the key lists only: the current bucket content `cur` (strictly sorted,
+    hence duplicate free) and the request decide the result -/
+theorem setlinks_exact_lists {s : St K} (hinv : LInv s) {sd : Side} {id : K} {cur req : List K}
+    (_hcur : linksOf s (sd, id) = cur) (_hsorted : SSorted cur) (_hnodup : cur.Nodup)
+    (hid : exists? s (sd, id) = true) (hall : ∀ k ∈ req, exists? s (sd.other, k) = true) :
+    linksOf (setLinks s sd id req).1 (sd, id) = dedupK (sortK req) :=
+  (setlinks_exact hinv hid hall).2.1
+
+theorem setlinks_exact_reachable (h : List (List (Op K))) {sd : Side} {id : K} {req : List K}
+    (hid : exists? (runHist ([] : St K) h) (sd, id) = true)
+    (hall : ∀ k ∈ req, exists? (runHist ([] : St K) h) (sd.other, k) = true) :
+    (setLinks (runHist ([] : St K) h) sd id req).2 = none ∧
+    linksOf (setLinks (runHist ([] : St K) h) sd id req).1 (sd, id) = dedupK (sortK req) ∧
+    (∀ b, id ∈ linksOf (setLinks (runHist ([] : St K) h) sd id req).1 (sd.other, b) ↔ b ∈ req) :=
+  let r := setlinks_exact (runHist_lInv lInv_nil h) hid hall
+  ⟨r.1, r.2.1, r.2.2.1⟩
+
+/-- `dedup (sort req)` is the set of `req`: same members, strictly increasing -/
+theorem dedup_sort_is_the_set (req : List K) :
+    SSorted (dedupK (sortK req)) ∧ ∀ x, x ∈ dedupK (sortK req) ↔ x ∈ req :=
+  ⟨ssorted_dedup_sort req, fun _ => mem_dedup_sort⟩
+
+/-- **linking to a missing entity fails**: a `SetLinks` request that names an entity which does
+    not exist returns not-found … -/
+theorem setlinks_missing {s : St K} (hinv : LInv s) {sd : Side} {id : K} {req : List K}
+    (hid : exists? s (sd, id) = true) (hmiss : ∃ k ∈ req, exists? s (sd.other, k) = false) :
+    (setLinks s sd id req).2 = some .notFound := by
+  apply setLinks_missing hinv.sorted hid _ hmiss
+  intro k hk
+  exact exists_of_mem_linksOf ((hinv.sym sd id k).mp hk)
+
+/-- … and so do `AddLinks`, `AddLink`, `IncrementLinkCount` and `SetLinkCount` … -/
+theorem addlinks_missing {s : St K} {sd : Side} {id : K} {keys : List K}
+    (hid : exists? s (sd, id) = true) (hmiss : ∃ k ∈ keys, exists? s (sd.other, k) = false) :
+    (addLinks s sd id keys).2 = some .notFound := by
+  rw [addLinks_unfold keys hid]; exact linkAll_missing sd id keys s hmiss
+
+theorem addlink_missing {s : St K} {sd : Side} {id k : K}
+    (hid : exists? s (sd, id) = true) (hmiss : exists? s (sd.other, k) = false) :
+    (addLink s sd id k).2.2 = some .notFound := by
+  rw [(addLink_unfold k hid).2]; exact link_err hmiss
+
+theorem increment_missing {s : St K} {sd : Side} {id k : K}
+    (hid : exists? s (sd, id) = true) (hmiss : exists? s (sd.other, k) = false) :
+    (rcIncr s sd id k).2.2 = some .notFound := rcIncr_missing_other hid hmiss
+
+theorem setcount_missing {s : St K} {sd : Side} {id k : K} (c : Int)
+    (hid : exists? s (sd, id) = true) (hmiss : exists? s (sd.other, k) = false) :
+    (rcSet s sd id k c).2.2.2 = some .notFound := rcSet_missing_other c hid hmiss
+
+/-- … and a transaction whose body fails leaves the database as it was. -/
+theorem failed_tx_changes_nothing {s : St K} {ops : List (Op K)} (h : (runOps s ops).2 = true) :
+    commitTx s ops = s := commitTx_failed h
+
+/-! ## reference-counted links -/
+
+/-- **Both sides always hold the same positive count**, after every committed history inside the
+    property's vocabulary: `SetLinkCount` arguments are ≥ 0 (`HistVocab`) and counts stay below
+    2^31 — stated on the history alone: the sum of all `SetLinkCount` arguments plus the number
+    of increments (`histWeight`) is < 2^31. -/
+theorem rc_agree (h : List (List (Op K))) (hv : HistVocab h) (hw : histWeight h < 2147483648) (a b : K) :
+    rcOf (runHist ([] : St K) h) (.A, a) b = rcOf (runHist ([] : St K) h) (.B, b) a ∧
+    ∀ c, rcOf (runHist ([] : St K) h) (.A, a) b = some c → 0 < c ∧ c < 2147483648 := by
+  have := runHist_rcInv (rcInv_nil (K := K) 0) (Int.le_refl 0) h hv (by omega)
+  refine ⟨this.1 .A a b, fun c hc => ?_⟩
+  have := this.2 _ _ _ hc
+  omega
+
+/-- the hypothesis of `rc_agree` is necessary: at 2^31 - 1 the int32 count wraps to a negative
+    number (the model follows the Go arithmetic) -/
+example : (bucketIncr ({ rc := [((5 : Nat), 2147483647)] } : Ent Nat) 5).2 = -2147483648 := by decide
+
+/-- **The link disappears from both sides when the count reaches zero** (by `DecrementLinkCount`):
+    in every state satisfying the invariant, a decrement of an existing entity's count succeeds,
+    returns the old count minus one (−1 if there was none), and whenever that is ≤ 0 neither side
+    holds an entry afterwards; otherwise both sides hold the decremented count. -/
+theorem rc_zero_removes {s : St K} {w : Int} (hinv : RcInv s w) (hw : w < 2147483648) {sd : Side} {id k : K}
+    (hid : exists? s (sd, id) = true) :
+    (rcDecr s sd id k).2.2 = none ∧
+    ((rcDecr s sd id k).2.1 ≤ 0 →
+      rcOf (rcDecr s sd id k).1 (sd, id) k = none ∧ rcOf (rcDecr s sd id k).1 (sd.other, k) id = none) ∧
+    ((rcDecr s sd id k).2.1 > 0 →
+      rcOf (rcDecr s sd id k).1 (sd, id) k = some (rcDecr s sd id k).2.1 ∧
+      rcOf (rcDecr s sd id k).1 (sd.other, k) id = some (rcDecr s sd id k).2.1) := by
+  obtain ⟨h1, h2, _, _⟩ := rcDecr_ok (k := k) hinv hw hid
+  have hret : (rcDecr s sd id k).2.1 = decrRet (rcOf s (sd, id) k) := by rw [h1]
+  have hloc := h2 sd id k
+  have hoth := h2 sd.other k id
+  simp only [if_true, and_self] at hloc
+  simp only [Side.other_ne, false_and, if_false, if_true, and_self] at hoth
+  refine ⟨by rw [h1], ?_, ?_⟩
+  · intro hle
+    rw [hret] at hle
+    rw [hloc, hoth]
+    cases hc : rcOf s (sd, id) k with
+    | none => simp [decrValue]
+    | some c =>
+      rw [hc] at hle; simp only [decrRet] at hle
+      simp [decrValue]; omega
+  · intro hgt
+    rw [hret] at hgt ⊢
+    rw [hloc, hoth]
+    cases hc : rcOf s (sd, id) k with
+    | none => rw [hc] at hgt; simp [decrRet] at hgt
+    | some c =>
+      rw [hc] at hgt; simp only [decrRet] at hgt
+      simp [decrValue, decrRet]; omega
+
+/-- … and by `SetLinkCount(…, 0)`; a positive argument stores that count on both sides -/
+theorem rc_set_both_sides {s : St K} {sd : Side} {id k : K} (c : Int) (hc0 : 0 ≤ c) (hc : c < 2147483648)
+    (hid : exists? s (sd, id) = true) (hk : exists? s (sd.other, k) = true) :
+    (rcSet s sd id k c).2.2.2 = none ∧
+    rcOf (rcSet s sd id k c).1 (sd, id) k = (if c = 0 then none else some c) ∧
+    rcOf (rcSet s sd id k c).1 (sd.other, k) id = (if c = 0 then none else some c) := by
+  obtain ⟨h1, h2, _, _⟩ := rcSet_ok (s := s) (sd := sd) (id := id) (k := k) c hc0 hc hid hk
+  refine ⟨h1, ?_, ?_⟩
+  · rw [h2]; simp
+  · rw [h2]; simp
+
+/-- an increment inside the vocabulary stores the same new count on both sides -/
+theorem rc_increment_both_sides {s : St K} {w : Int} (hinv : RcInv s w) (hw : w + 1 < 2147483648)
+    {sd : Side} {id k : K} (hid : exists? s (sd, id) = true) (hk : exists? s (sd.other, k) = true) :
+    ∃ n, (rcIncr s sd id k).2 = (n, none) ∧ 0 < n ∧
+      rcOf (rcIncr s sd id k).1 (sd, id) k = some n ∧ rcOf (rcIncr s sd id k).1 (sd.other, k) id = some n := by
+  obtain ⟨n, h1, hn, h2, _, _⟩ := rcIncr_ok hinv hw hid hk
+  refine ⟨n, h1, ?_, ?_, ?_⟩
+  · rw [hn]; cases hc : rcOf s (sd, id) k with
+    | none => simp
+    | some c => have := hinv.2 _ _ _ hc; simp only; omega
+  · rw [h2]; simp
+  · rw [h2]; simp
+
+/-! ## entity deletion -/
+
+/-- **The link disappears from both sides when either entity is deleted**: after a successful
+    `DeleteById` from a state satisfying the invariants, the entity is gone, no link set and no
+    count map of the other store mentions its id, and nothing else changed. -/
+theorem delete_unlinks {s : St K} {w : Int} (hl : LInv s) (hr : RcInv s w) {sd : Side} {id : K}
+    (hid : exists? s (sd, id) = true) :
+    (deleteEntity s sd id).2 = none ∧
+    exists? (deleteEntity s sd id).1 (sd, id) = false ∧
+    linksOf (deleteEntity s sd id).1 (sd, id) = [] ∧
+    (∀ x, id ∉ linksOf (deleteEntity s sd id).1 (sd.other, x)) ∧
+    (∀ x, rcOf (deleteEntity s sd id).1 (sd.other, x) id = none ∧ rcOf (deleteEntity s sd id).1 (sd, id) x = none) ∧
+    (∀ x y, y ≠ id → (y ∈ linksOf (deleteEntity s sd id).1 (sd.other, x) ↔ y ∈ linksOf s (sd.other, x))) ∧
+    (∀ x, x ≠ id → linksOf (deleteEntity s sd id).1 (sd, x) = linksOf s (sd, x)) := by
+  obtain ⟨h1, h2, h3, h4⟩ := deleteEntity_ok hid
+  have hgone : exists? (deleteEntity s sd id).1 (sd, id) = false := by rw [h2]; simp
+  refine ⟨h1, hgone, linksOf_of_not_exists hgone, ?_, ?_, ?_, ?_⟩
+  · intro x hm
+    rw [h3] at hm
+    obtain ⟨_, hm1, hm2⟩ := hm
+    exact hm2 ⟨rfl, (hl.sym sd id x).mpr (by simpa using hm1), rfl⟩
+  · intro x
+    constructor
+    · rw [h4]
+      have hne : ¬ (sd, id) = (sd.other, x) := fun h => Side.ne_other sd (Prod.mk.inj h).1
+      simp only [hne, if_false, true_and, and_true]
+      split
+      · rfl
+      · next hn =>
+        have : rcOf s (sd, id) x = none := by
+          cases hc : rcOf s (sd, id) x with
+          | none => rfl
+          | some c => exact absurd (by rw [hc]; simp) hn
+        rw [← hr.1 sd id x]; exact this
+    · exact rcOf_of_not_exists hgone x
+  · intro x y hy
+    rw [h3]
+    have hne : ¬ (sd, id) = (sd.other, x) := fun h => Side.ne_other sd (Prod.mk.inj h).1
+    simp [hne, hy]
+  · intro x hx
+    apply ssorted_ext ((deleteEntity_allSorted hl.sorted) (sd, x)) (hl.sorted (sd, x))
+    intro y
+    rw [h3]
+    have hne : ¬ (sd, id) = (sd, x) := fun h => hx (Prod.mk.inj h).2.symm
+    simp [hne]
+
+/-- deletion from any state a history inside the vocabulary can reach -/
+theorem delete_unlinks_reachable (h : List (List (Op K))) (hv : HistVocab h) (hw : histWeight h < 2147483648)
+    {sd : Side} {id : K} (hid : exists? (runHist ([] : St K) h) (sd, id) = true) :
+    let s' := (deleteEntity (runHist ([] : St K) h) sd id).1
+    exists? s' (sd, id) = false ∧ (∀ x, id ∉ linksOf s' (sd.other, x)) ∧ (∀ x, rcOf s' (sd.other, x) id = none) := by
+  have hr := runHist_rcInv (rcInv_nil (K := K) 0) (Int.le_refl 0) h hv (by omega)
+  obtain ⟨_, a, _, b, c, _⟩ := delete_unlinks (runHist_lInv lInv_nil h) hr hid
+  exact ⟨a, b, fun x => (c x).1⟩
+
+/-! ## the model refines the relational specification -/
+
+/-- **For every history inside the vocabulary the committed state of the model is the state the
+    specification prescribes** (C05/Spec.lean: ONE relation and ONE count map of which both sides'
+    views are projections; set-links replaces a row by the requested set; linking to a missing
+    entity fails; delete removes every pair that mentions the entity; a count reaching zero removes
+    the pair; a failing operation fails its transaction, which then changes nothing): both show
+    the same entities, the same sorted link list for every entity on either side and the same
+    count for every pair from either side.  `step_sim` (C05/Sim.lean) is the single-operation
+    statement, including equal return values and equal failure. -/
+theorem model_refines_spec (h : List (List (Op K))) (hv : HistVocab h) (hw : histWeight h < 2147483648) :
+    (∀ r, exists? (runHist ([] : St K) h) r = Spec.has (srunHist ({} : Spec.SSt K) h) r) ∧
+    (∀ sd id, linksOf (runHist ([] : St K) h) (sd, id) = Spec.partners (srunHist ({} : Spec.SSt K) h) sd id) ∧
+    (∀ sd id k, rcOf (runHist ([] : St K) h) (sd, id) k = Spec.count (srunHist ({} : Spec.SSt K) h) sd id k) := by
+  have hl := runHist_lInv (lInv_nil (K := K)) h
+  have hc := runHist_rcInv (rcInv_nil (K := K) 0) (Int.le_refl 0) h hv (by omega)
+  have hr := runHist_sim (rel_nil (K := K)) ⟨lInv_nil, rcInv_nil 0⟩ (Int.le_refl 0) h hv (by omega)
+  exact ⟨hr.ents, fun sd id => (partners_eq hr hl sd id).symm, fun sd id k => (count_eq hr hc sd id k).symm⟩
+
+/-! ## self-referential collections: one store linked with itself, self links allowed
+
+  `store.AddLinkCollection(peers, peers)`: the collection's other field is its own field, so an entity
+  can be linked to itself, `link`/`unlink` write twice into the same bucket, and `EntityDeleted`'s
+  `RemoveLink(id, id)` deletes from the very bucket whose keys it walks — the repaired code
+  (b23d525) collects the keys first.  Model: C05/SelfW.lean (the same state type and bucket
+  primitives, one side). -/
+
+open SelfW in
+/-- **symmetry for every history** of a self-referential collection (create, create-with-links,
+    delete, AddLinks, RemoveLinks, SetLinks, AddLink, RemoveLink; self links included) -/
+theorem self_links_symmetric (h : List (List (SelfW.SOp K))) (a b : K) :
+    b ∈ SelfW.L (SelfW.srunHistW ([] : St K) h) a ↔ a ∈ SelfW.L (SelfW.srunHistW ([] : St K) h) b :=
+  (SelfW.srunHistW_lInv SelfW.lInvW_nil h).sym a b
+
+/-- **set-links leaves exactly the requested set**, whether or not the request, the current set or
+    both contain the entity itself; exactly the requested entities list `id` afterwards -/
+theorem self_setlinks_exact {s : St K} (hinv : SelfW.LInvW s) {id : K} {req : List K}
+    (hid : exists? s (SelfW.R id) = true) (hall : ∀ k ∈ req, exists? s (SelfW.R k) = true) :
+    (SelfW.ssetLinks s id req).2 = none ∧
+    SelfW.L (SelfW.ssetLinks s id req).1 id = dedupK (sortK req) ∧
+    (∀ b, id ∈ SelfW.L (SelfW.ssetLinks s id req).1 b ↔ b ∈ req) := by
+  obtain ⟨h1, h2⟩ := SelfW.ssetLinks_ok hinv.sorted hid hall
+  refine ⟨h1, h2, fun b => ?_⟩
+  rw [← SelfW.ssetLinks_sym hinv.sym h1 id b, h2, mem_dedup_sort]
+
+theorem self_setlinks_missing {s : St K} (hinv : SelfW.LInvW s) {id : K} {req : List K}
+    (hid : exists? s (SelfW.R id) = true) (hmiss : ∃ k ∈ req, exists? s (SelfW.R k) = false) :
+    (SelfW.ssetLinks s id req).2 = some .notFound := by
+  apply SelfW.ssetLinks_missing hinv.sorted hid _ hmiss
+  intro k hk
+  exact exists_of_mem_linksOf ((hinv.sym id k).mp hk)
+
+/-- **a deleted entity disappears from every link set, also when it was linked to itself**: after
+    `DeleteById` nobody lists `id`, `id` is gone, and every other membership is as before -/
+theorem self_delete_unlinks {s : St K} (hinv : SelfW.LInvW s) {id : K} (hid : exists? s (SelfW.R id) = true) :
+    (SelfW.sdelete s id).2 = none ∧
+    exists? (SelfW.sdelete s id).1 (SelfW.R id) = false ∧
+    (∀ x, id ∉ SelfW.L (SelfW.sdelete s id).1 x) ∧
+    (∀ x y, x ≠ id → y ≠ id → (y ∈ SelfW.L (SelfW.sdelete s id).1 x ↔ y ∈ SelfW.L s x)) := by
+  obtain ⟨h1, h2, h3⟩ := SelfW.sdelete_ok hid
+  refine ⟨h1, by rw [h2]; simp, ?_, ?_⟩
+  · intro x hm
+    rw [h3] at hm
+    obtain ⟨_, hm1, hm2⟩ := hm
+    exact hm2 ⟨(hinv.sym id x).mpr hm1, rfl⟩
+  · intro x y hx hy
+    rw [h3]; simp [hx, hy]
+
+theorem self_delete_unlinks_reachable (h : List (List (SelfW.SOp K))) {id : K}
+    (hid : exists? (SelfW.srunHistW ([] : St K) h) (SelfW.R id) = true) (x : K) :
+    id ∉ SelfW.L (SelfW.sdelete (SelfW.srunHistW ([] : St K) h) id).1 x :=
+  (self_delete_unlinks (SelfW.srunHistW_lInv SelfW.lInvW_nil h) hid).2.2.1 x
+
+end
+
+/-! ## non-vacuity: concrete states and histories (keys = Nat) -/
+
+/-- a history: create B.1 B.2 B.3 and A.7; link A.7 to {1,3}; set-links A.7 := [3,2,2,3] -/
+def demoHist : List (List (Op Nat)) :=
+  [[.create .B 1 false none, .create .B 2 false none, .create .B 3 false none, .create .A 7 false none],
+   [.addLinks .A 7 [3, 1]],
+   [.setLinks .A 7 [3, 2, 2, 3], .incr .A 7 2, .incr .B 2 7, .setCount .A 7 3 5, .decr .B 3 7]]
+
+example : linksOf (runHist [] demoHist) (.A, 7) = [2, 3] := by decide
+example : linksOf (runHist [] demoHist) (.B, 2) = [7] ∧ linksOf (runHist [] demoHist) (.B, 1) = [] := by decide
+example : rcOf (runHist [] demoHist) (.A, 7) 2 = some 2 ∧ rcOf (runHist [] demoHist) (.B, 2) 7 = some 2 := by decide
+example : rcOf (runHist [] demoHist) (.A, 7) 3 = some 4 ∧ rcOf (runHist [] demoHist) (.B, 3) 7 = some 4 := by decide
+example : HistVocab demoHist ∧ histWeight demoHist < 2147483648 := by
+  refine ⟨?_, by decide⟩
+  intro tx htx op hop
+  simp only [demoHist, List.mem_cons, List.mem_nil_iff, or_false] at htx
+  rcases htx with rfl | rfl | rfl <;> simp only [List.mem_cons, List.mem_nil_iff, or_false] at hop
+  all_goals (rcases hop with rfl | rfl | rfl | rfl | rfl <;> simp [OpVocab])
+/-- hypotheses of `setlinks_exact` / `setlinks_missing` / `delete_unlinks` are satisfiable by a state with links -/
+example : exists? (runHist [] demoHist) (.A, 7) = true ∧ exists? (runHist [] demoHist) (.B, 9) = false := by decide
+example : (setLinks (runHist [] demoHist) .A 7 [9, 1]).2 = some .notFound := by decide
+example : (linksOf (deleteEntity (runHist [] demoHist) .B 2).1 (.A, 7), rcOf (deleteEntity (runHist [] demoHist) .B 2).1 (.A, 7) 2)
+    = ([3], none) := by decide
+
+/-! ### self-referential wiring -/
+
+/-- create 1 2 3; `AddLinks(1, 1, 2, 3)` (a self link) and `DeleteById(1)` in one transaction -/
+def selfHist : List (List (SelfW.SOp Nat)) :=
+  [[.create 1 false none, .create 2 false none, .create 3 false none, .addLinks 1 [1, 2, 3]]]
+
+example : SelfW.L (SelfW.srunHistW [] selfHist) 1 = [1, 2, 3] ∧ SelfW.L (SelfW.srunHistW [] selfHist) 2 = [1] := by decide
+example : exists? (SelfW.srunHistW [] selfHist) (SelfW.R 1) = true := by decide
+example : SelfW.L (SelfW.sdelete (SelfW.srunHistW [] selfHist) 1).1 2 = [] ∧
+    SelfW.L (SelfW.sdelete (SelfW.srunHistW [] selfHist) 1).1 3 = [] := by decide
+example : SelfW.L (SelfW.ssetLinks (SelfW.srunHistW [] selfHist) 2 [2, 3, 2]).1 2 = [2, 3] ∧
+    SelfW.L (SelfW.ssetLinks (SelfW.srunHistW [] selfHist) 2 [2, 3, 2]).1 1 = [1, 3] := by decide
+
+/-- Why the tree before b23d525 violated C05 in this wiring (C05/Self.lean models the old walk: a
+    bbolt cursor standing on an in-memory node skips the key after a deleted current key): entity
+    2 kept its link to the deleted entity 1. -/
+example : Self.linksOf (Self.runHist false {} Self.witness) 2 = [1] ∧
+    Self.mget (Self.runHist false {} Self.witness).ents 1 = none := by decide
+
+end StorageModel.Properties.C05
+
+#print axioms StorageModel.Properties.C05.links_symmetric
+#print axioms StorageModel.Properties.C05.setlinks_exact
+#print axioms StorageModel.Properties.C05.setlinks_missing
+#print axioms StorageModel.Properties.C05.rc_agree
+#print axioms StorageModel.Properties.C05.rc_zero_removes
+#print axioms StorageModel.Properties.C05.delete_unlinks
+#print axioms StorageModel.Properties.C05.model_refines_spec
+#print axioms StorageModel.Properties.C05.self_links_symmetric
+#print axioms StorageModel.Properties.C05.self_setlinks_exact
+#print axioms StorageModel.Properties.C05.self_delete_unlinks
